@@ -127,6 +127,24 @@ def _is_null(instance, name):
             return False
 
 
+def _is_null_value(value, type_name):
+    '''
+    Determine if a *value* of some *type name* is null, i.e. unset, the
+    null id or an empty string.
+    '''
+    if value is None:
+        return True
+    
+    type_name = (type_name or '').upper()
+    if type_name == 'UNIQUE_ID':
+        return value == 0
+    
+    elif type_name == 'STRING':
+        return len(value) == 0
+    
+    return False
+
+
 def apply_query_operators(iterable, ops):
     '''
     Apply a series of query operators to a sequence of instances, e.g.
@@ -619,6 +637,12 @@ class MetaClass(object):
                 kwargs[key] = referential_attributes[value]
             
             if not kwargs:
+                continue
+            
+            # null values never refer to another instance
+            if any(_is_null_value(referential_attributes[name],
+                                  self.attribute_type(name))
+                   for name in link.key_map.values()):
                 continue
             
             for other_inst in link.to_metaclass.query(kwargs):
